@@ -417,3 +417,156 @@ func sameSSA(a, b ssa.Value, depth int) bool {
 	}
 	return false
 }
+
+// IterBufferRetained (K17): the byte slice an iterator hands out as Key()/Value() is only good until the next Next()
+// (goleveldb re-uses one buffer): a function that KEEPS it - stores it into a field, an element (append as element), a
+// map, boxes it into an interface or sends it - without copying keeps an alias that silently turns into a later entry.
+// Converting to string, `append(dst, k...)`, copy() and passing it to a call are copies or uses, not retention.
+type IterRetain struct {
+	Fn   *ssa.Function
+	At   ssa.Instruction
+	Call ssa.Value
+	How  string
+}
+
+func isIterBufCall(v ssa.Value) bool {
+	c, ok := v.(*ssa.Call)
+	if !ok || len(c.Call.Args) > 1 {
+		return false
+	}
+	name := ""
+	var recv types.Type
+	if c.Call.IsInvoke() {
+		if len(c.Call.Args) != 0 {
+			return false
+		}
+		name = c.Call.Method.Name()
+		recv = c.Call.Value.Type()
+	} else if f := c.Call.StaticCallee(); f != nil && f.Signature.Recv() != nil && len(c.Call.Args) == 1 {
+		name = f.Name()
+		recv = f.Signature.Recv().Type()
+	}
+	if name != "Key" && name != "Value" {
+		return false
+	}
+	sl, ok := c.Type().Underlying().(*types.Slice)
+	if !ok {
+		return false
+	}
+	if b, ok := sl.Elem().Underlying().(*types.Basic); !ok || b.Kind() != types.Uint8 {
+		return false
+	}
+	// the receiver is an iterator: it has Next() bool
+	ms := types.NewMethodSet(recv)
+	for i := 0; i < ms.Len(); i++ {
+		if ms.At(i).Obj().Name() == "Next" {
+			return true
+		}
+	}
+	if _, isPtr := recv.(*types.Pointer); !isPtr {
+		ms = types.NewMethodSet(types.NewPointer(recv))
+		for i := 0; i < ms.Len(); i++ {
+			if ms.At(i).Obj().Name() == "Next" {
+				return true
+			}
+		}
+	}
+	return false
+}
+
+func IterBufferRetained(p *load.Program, inPkg func(string) bool) (out []IterRetain, calls int) {
+	for _, fn := range p.AllFns {
+		if fn.Pkg == nil || (inPkg != nil && !inPkg(fn.Pkg.Pkg.Path())) {
+			continue
+		}
+		for _, b := range fn.Blocks {
+			for _, ins := range b.Instrs {
+				v, ok := ins.(ssa.Value)
+				if !ok || !isIterBufCall(v) {
+					continue
+				}
+				calls++
+				seen := map[ssa.Value]bool{}
+				var walk func(x ssa.Value)
+				walk = func(x ssa.Value) {
+					if seen[x] {
+						return
+					}
+					seen[x] = true
+					refs := x.Referrers()
+					if refs == nil {
+						return
+					}
+					for _, r := range *refs {
+						switch u := r.(type) {
+						case *ssa.Slice:
+							if u.X == x {
+								walk(u)
+							}
+						case *ssa.Phi:
+							walk(u)
+						case *ssa.ChangeType:
+							walk(u)
+						case *ssa.Store:
+							if u.Val != x {
+								continue
+							}
+							switch a := u.Addr.(type) {
+							case *ssa.FieldAddr:
+								// a field of the iterator wrapper itself (m.key = inner.Key()) is the wrapper's own
+								// hand-out, as short-lived as the inner one
+								if fn.Signature.Recv() != nil && len(fn.Params) > 0 && rootOf(a.X) == ssa.Value(fn.Params[0]) {
+									continue
+								}
+								out = append(out, IterRetain{fn, u, v, "stored into field " + typeField(a)})
+							case *ssa.IndexAddr:
+								out = append(out, IterRetain{fn, u, v, "stored as an element (append / index assignment)"})
+							}
+						case *ssa.MakeInterface:
+							// boxed and handed on as a direct argument (cache.Add(k, v), list.PushBack(v), m.Store(k, v))
+							// or stored: kept. Boxed into a variadic ...interface{} (logging, formatting): a use.
+							if mr := u.Referrers(); mr != nil {
+								for _, r2 := range *mr {
+									switch w := r2.(type) {
+									case ssa.CallInstruction:
+										out = append(out, IterRetain{fn, w, v, "boxed and handed to " + Callee(w.Common()).Recv + "." + Callee(w.Common()).Name})
+									case *ssa.MapUpdate:
+										out = append(out, IterRetain{fn, w, v, "boxed and stored in a map"})
+									case *ssa.Store:
+										if fa, ok := w.Addr.(*ssa.FieldAddr); ok && w.Val == ssa.Value(u) {
+											out = append(out, IterRetain{fn, w, v, "boxed and stored into field " + typeField(fa)})
+										}
+									}
+								}
+							}
+						case *ssa.MapUpdate:
+							if u.Value == x {
+								out = append(out, IterRetain{fn, u, v, "stored as a map value"})
+							}
+						case *ssa.Send:
+							out = append(out, IterRetain{fn, u, v, "sent on a channel"})
+						}
+					}
+				}
+				walk(v)
+			}
+		}
+	}
+	return
+}
+
+func rootOf(v ssa.Value) ssa.Value {
+	for i := 0; i < 8; i++ {
+		switch x := v.(type) {
+		case *ssa.FieldAddr:
+			v = x.X
+		case *ssa.UnOp:
+			v = x.X
+		case *ssa.IndexAddr:
+			v = x.X
+		default:
+			return v
+		}
+	}
+	return v
+}
